@@ -663,6 +663,150 @@ def revised_masses(run: Run, formula, me):
         core.PRIVATE_TABLES.pop("c02-revised", None)
 
 
+def _fresh(s, tbl):
+    """a NEW nested list of real atoms for the key structure s (every call builds new list objects)"""
+    return [(c, pyside.atom_of(f, tbl) if pyside.is_key(f) else _fresh(f, tbl)) for c, f in s]
+
+
+def _on_demand(s, tbl):
+    """the nested sequence s as a generator that builds each group only when the constructor asks for it
+    (nothing but the constructor holds the group afterwards)"""
+    for c, f in s:
+        yield (c, pyside.atom_of(f, tbl) if pyside.is_key(f) else _fresh(f, tbl))
+
+
+def big_counts_and_lazy_groups(run: Run, tbl, formula, me):
+    """(1) whole-number counts of 16..19 digits written in a formula STRING (atom count, group multiplier, leading
+    multiplier) are the integers that were written: judged exactly against the same formula built from the
+    (count, fragment) sequence and with n*f, and against the integer arithmetic of the statement;
+    (2) a nested (count, fragment) sequence handed over as a generator whose groups are built on demand has the
+    count-weighted sums of the parts it yielded - the same structure as the sequence held in a list."""
+    rng = run.rng
+    pools = [2 ** 53 + 1, 2 ** 53 + 3, 2 ** 54 + 2, 10 ** 16 + 1, 10 ** 17 + 7, 10 ** 18 - 1, 123456789012345679]
+    for i in range(120 if run.tier == "quick" else 2500):
+        n = rng.choice(pools) if rng.random() < 0.4 else rng.randint(2 ** 53 + 1, 10 ** 18)
+        if rng.random() < 0.3:
+            n |= 1              # odd: never a double beyond 2**53
+        shape = rng.choice(["atom-count", "group-multiplier", "leading-multiplier", "sum"])
+        ks = []
+        for _ in range(1 if shape in ("atom-count", "sum") else rng.randint(1, 3)):
+            k = gens.gen_atom(rng)
+            if k not in ks:
+                ks.append(k)
+        inner = [(rng.choice([1, 2, 3, 5]), k) for k in ks]
+        if shape in ("atom-count", "sum"):
+            text = render_flat([(n, ks[0])], tbl)
+            seq = [(n, ks[0])]
+            want = {ks[0]: n}
+        elif shape == "group-multiplier":
+            text = "(%s)%d" % (render_flat(inner, tbl), n)
+            seq = [(n, inner)]
+            want = {k: c * n for c, k in inner}
+        else:
+            text = "%d%s" % (n, render_flat(inner, tbl))
+            seq = [(n, inner)]
+            want = {k: c * n for c, k in inner}
+        if shape == "sum":
+            want = {k: 2 * v for k, v in want.items()}
+        inp = dict(string=text, count=n, shape=shape)
+        run.count(key="bigcount" + repr(inp), nontrivial=True, sample=repr(inp), tag="big-integer-count")
+        try:
+            f = formula(text)
+            g = formula(pyside.struct_objs(seq, tbl))
+            h = n * formula(pyside.struct_objs(inner if shape not in ("atom-count", "sum") else [(1, ks[0])], tbl))
+            if shape == "sum":
+                f, g, h = f + formula(text), g + g, h + h
+            got = {pyside.key_of(a): c for a, c in f.atoms.items()}
+            gseq = {pyside.key_of(a): c for a, c in g.atoms.items()}
+            gmul = {pyside.key_of(a): c for a, c in h.atoms.items()}
+            charge, cseq = f.charge, g.charge
+        except Exception as e:  # noqa
+            run.violation("formula with a %d-digit integer count raised %s: %s"
+                          % (len(str(n)), type(e).__name__, str(e)[:80]), inp)
+            continue
+        # judged only where the sequence route itself is exact (integer counts stay Python integers)
+        if gseq != want or gmul != want or not all(isinstance(v, int) for v in gseq.values()):
+            continue
+        if got != want:
+            run.violation("a whole-number count of %d digits written in a formula string is not the count of the parsed "
+                          "formula: the string gives %s, the same formula as a (count, fragment) sequence and as n*f "
+                          "gives %s" % (len(str(n)), got, want), inp)
+        elif cseq == sum(v * k[2] for k, v in want.items()) and charge != cseq:
+            run.violation("charge of a formula string with a %d-digit count: %r, of the same sequence: %r"
+                          % (len(str(n)), charge, cseq), inp)
+    # an {atom: count} mapping with zero counts (the boundary of the non-negative range) is an operand: it is left as
+    # it was, and the atoms it names are parts of the formula with count zero
+    for i in range(60 if run.tier == "quick" else 1000):
+        ks = []
+        for _ in range(rng.randint(2, 5)):
+            k = gens.gen_atom(rng)
+            if k not in ks:
+                ks.append(k)
+        pairs = [(k, rng.choice([0, 0.0, Fraction(0)]) if j == 0 or rng.random() < 0.3 else gens.gen_count(rng))
+                 for j, k in enumerate(ks)]
+        rng.shuffle(pairs)
+        inp = dict(mapping=[(k, float(c)) for k, c in pairs])
+        run.count(key="zeromap" + repr(inp), nontrivial=True, tag="mapping-with-zero-count")
+        try:
+            d = {pyside.atom_of(k, tbl): c for k, c in pairs}
+            snap = list(d.items())
+            f = formula(d)
+            got = {pyside.key_of(a): c for a, c in f.atoms.items()}
+        except Exception as e:  # noqa
+            run.violation("formula({atom: count}) with a zero count raised %s: %s" % (type(e).__name__, str(e)[:80]), inp)
+            continue
+        if list(d.items()) != snap:
+            run.violation("formula(mapping) changed the mapping it was given (its operand): %d entries before, %d after"
+                          % (len(snap), len(d)), inp)
+        elif set(got) != set(ks) or any(not close(float(c), float(got[k])) for k, c in pairs):
+            run.violation("atom counts of formula(mapping) are not the counts of the mapping (zero counts included)",
+                          inp, got=str(got))
+    for i in range(250 if run.tier == "quick" else 5000):
+        if rng.random() < 0.5:
+            # several single-atom groups in a row (the shape of a residue list)
+            ks = [gens.gen_atom(rng) for _ in range(rng.randint(2, 8))]
+            s = [(gens.gen_count(rng), [(1, k)]) for k in ks]
+            if rng.random() < 0.3:
+                s = [(1, [g]) for g in s]
+        else:
+            s = gens.gen_struct(rng, maxdepth=3)
+            s += [(gens.gen_count(rng), gens.gen_struct(rng, maxdepth=1)) for _ in range(rng.randint(1, 4))]
+            rng.shuffle(s)
+        how = rng.choice(["formula(generator)", "formula(generator)", "formula(map)"])
+        inp = dict(structure=s, built_as=how)
+        run.count(key="lazy" + repr(inp), nontrivial=sum(1 for _, f in s if not pyside.is_key(f)) >= 2,
+                  sample=repr(inp) if len(repr(inp)) < 300 else None, tag="groups-built-on-demand")
+        try:
+            if how == "formula(generator)":
+                f = formula(_on_demand(s, tbl))
+            else:
+                f = formula(map(lambda cf: (cf[0], pyside.atom_of(cf[1], tbl) if pyside.is_key(cf[1])
+                                            else _fresh(cf[1], tbl)), s))
+            eager = formula(_fresh(s, tbl))
+            got = {pyside.key_of(a): c for a, c in f.atoms.items()}
+            fs, es = pyside.struct_keys(f.structure), pyside.struct_keys(eager.structure)
+            mass, charge = f.mass, f.charge
+        except Exception as e:  # noqa
+            run.violation("formula from a generator of groups built on demand raised %s: %s"
+                          % (type(e).__name__, str(e)[:80]), inp)
+            continue
+        want = pyside.flat_counts(s)
+        if set(got) != set(want) or any(not close(float(want[k]), got[k]) for k in want):
+            run.violation("atom counts of a formula built from a generator whose groups are created on demand are not the "
+                          "count-weighted sum of its parts: expected %s got %s"
+                          % ({k: float(v) for k, v in want.items()}, got), inp, eager_structure=str(es)[:300],
+                          lazy_structure=str(fs)[:300])
+            continue
+        if fs != es:
+            run.violation("the same nested sequence gives another structure as a generator (groups built on demand) than "
+                          "as a list", inp, eager_structure=str(es)[:300], lazy_structure=str(fs)[:300])
+            continue
+        masses = {k: Fraction(pyside.atom_of((k[0], k[1], 0), tbl).mass) - k[2] * me for k in want}
+        m = sum((want[k] * masses[k] for k in want), Fraction(0))
+        if not close(float(m), mass, rel=1e-9):
+            run.violation("mass of a formula built from a generator of groups: expected %r got %r" % (float(m), mass), inp)
+
+
 def run(run: Run) -> int:
     pt = import_repo()
     from periodictable.formulas import formula
@@ -677,6 +821,7 @@ def run(run: Run) -> int:
     returned_mappings(run, tbl, formula, me)
     trace_fractions(run, tbl, formula, me)
     revised_masses(run, formula, me)
+    big_counts_and_lazy_groups(run, tbl, formula, me)
     # replay consistency: the first programs once more at the end (nothing may depend on what ran in between)
     check_programs(run, progs[:150], tbl, formula, me)
     return run.finish(RULE, assumptions=[
